@@ -1365,6 +1365,8 @@ class FullExecutor(Executor):
         head.assume(z3.And(lo <= i.z, i.z <= z3.If(n < lo, lo, n)))
         extra = {"_i": i, idx_name: i, "_iter": src if isinstance(src, V) else K(None)}
         head.env[idx_name] = i
+        if isinstance(src, V):
+            head.env[f"_iter{k}"] = src      # the list iterated by loop k stays nameable (`_iter<k>`) in later invariants / hints
         head.ghost[f"__head{k}__"] = Namespace(dict(head.env), dict(head.heap))
         self.assume_inv(head, k, extra)
         outs = []
